@@ -35,7 +35,7 @@ if [ "$R_APPLY" = ok ]; then
   git -C /repo worktree add -q "$WT2" HEAD && git -C "$WT2" apply "$DIFF" || { echo "cannot apply"; exit 2; }
   CHK="{"
   for c in "$@"; do
-    o=$(VERIF_REPO="$WT2" scripts/check.sh $c quick 2>&1)
+    o=$(VERIF_REPO="$WT2" timeout 3000 scripts/check.sh $c quick 2>&1)
     rc=$?
     sigs=$(echo "$o" | grep -E "^  signature:" | head -4 | sed 's/^  signature: //; s/"/\\"/g' | tr '\n' ';')
     CHK="$CHK\"$c\": {\"exit\": $rc, \"signatures\": \"$sigs\"},"
